@@ -179,9 +179,9 @@ def top_level_blocks(src, mask, start, end):
         i += 1
 
 
-def find_scope(src, mask, scope, start=0, end=None):
-    """Locate an `impl ...`/`trait ...`/`mod ...` block whose normalised header contains `scope`
-    (normalised) — returns (open_brace, close_brace).  Exactly one match is required."""
+def find_scopes(src, mask, scope, start=0, end=None):
+    """All `impl ...`/`trait ...`/`mod ...` blocks whose normalised header equals `scope`
+    (attributes, visibility and `unsafe` ignored) — list of (open_brace, close_brace)."""
     if end is None:
         end = len(src)
     want = _norm_ws(scope)
@@ -189,10 +189,15 @@ def find_scope(src, mask, scope, start=0, end=None):
     for hdr, ob, cb in _all_blocks_with_headers(src, mask, start, end):
         h = _norm_ws(_strip_noncode(src, mask, hdr, ob))
         # cut leading attributes / visibility
-        h2 = re.sub(r"^(?:#\[[^\]]*\]\s*)*", "", h)
+        h2 = re.sub(r"^(?:#!?\[[^\]]*\]\s*)*", "", h)
         h2 = re.sub(r"^(?:pub(?:\([^)]*\))?\s+)?(?:unsafe\s+)?", "", h2)
         if h2 == want or h2.startswith(want + " where") or h2.startswith(want + " :"):
             found.append((ob, cb))
+    return found
+
+
+def find_scope(src, mask, scope, start=0, end=None):
+    found = find_scopes(src, mask, scope, start, end)
     if len(found) != 1:
         raise AnchorLost("scope `%s`: %d matches" % (scope, len(found)))
     return found[0]
@@ -281,17 +286,32 @@ def find_fn(src, mask, name, start=0, end=None, file="?", cfg_pick=None):
 
 
 def locate(src, path, file="?", cfg_pick=None):
-    """path: 'fn_name' or 'scope header :: fn_name' or 'scope :: scope :: fn_name'."""
+    """path: 'fn_name' or 'scope header ::> fn_name' or 'scope ::> scope ::> fn_name'.  A scope header
+    may occur several times (e.g. two `impl T` blocks); the function must then be found in exactly one."""
     mask = code_mask(src)
     parts = [p.strip() for p in path.split("::>")]
-    start, end = 0, len(src)
+    regions = [(0, len(src))]
     for sc in parts[:-1]:
-        ob, cb = find_scope(src, mask, sc, start, end)
-        start, end = ob + 1, cb
+        nxt = []
+        for (start, end) in regions:
+            for ob, cb in find_scopes(src, mask, sc, start, end):
+                nxt.append((ob + 1, cb))
+        if not nxt:
+            raise AnchorLost("scope `%s` not found in %s" % (sc, file))
+        regions = nxt
     name = parts[-1]
     if name.startswith("fn "):
         name = name[3:].strip()
-    return find_fn(src, mask, name, start, end, file=file, cfg_pick=cfg_pick)
+    hits = []
+    for (start, end) in regions:
+        try:
+            hits.append(find_fn(src, mask, name, start, end, file=file, cfg_pick=cfg_pick))
+        except AnchorLost as e:
+            if "0 candidates" not in str(e):
+                raise
+    if len(hits) != 1:
+        raise AnchorLost("fn `%s` in %s: %d candidates over %d scope blocks" % (name, file, len(hits), len(regions)))
+    return hits[0]
 
 
 LOOP_KW = ("for", "while", "loop")
